@@ -2,7 +2,7 @@
 From V.Lib Require Import Base.
 From Coq Require Import String.
 From Coq Require Import Permutation.
-From V.C13 Require Import Model Spec Corr Wf Proofs Proofs2 Proofs3 Proofs4 Proofs5 Bridge Extract Postcard PostcardProofs Roundtrip.
+From V.C13 Require Import Model Spec Corr Wf Proofs Proofs2 Proofs3 Proofs4 Proofs5 Bridge Extract Postcard PostcardProofs Roundtrip Wire WireProofs Bridge2 Keeps Bridge3.
 From V.Gen Require Import C13Wire.
 From V.Gen Require Import C13Schema.
 Local Open Scope Z_scope.
@@ -227,6 +227,67 @@ Theorem C13_parse_header_errors : forall bs,
   ((List.length bs < 8)%nat -> parse_wire W_v1 W_v2 bs = Err TooShort) /\
   ((8 <= List.length bs)%nat -> firstn 4 bs <> MAGIC -> parse_wire W_v1 W_v2 bs = Err NotPczt).
 Proof. exact (parse_wire_errors W_v1 W_v2). Qed.
+
+(** ** Logical PCZTs on bytes: [Pczt::serialize] = choose the version, embed the logical tree into
+    the serde value of [v1::Pczt] / [v2::Pczt] ([wire_of]), encode; [Pczt::parse] = header, decode,
+    read the logical tree back.  [leaf] is the serde value of each interned leaf — arbitrary, only
+    required to be injective ([unleaf] inverts it).  [serialize_bytes leaf p = Some bs] says that the
+    encoder is defined on [p], i.e. every leaf has the wire type of its position. *)
+
+(** the embedding of logical trees into wire values can be read back, at every logical type and
+    wire shape *)
+Theorem C13_wire_embedding_roundtrip : forall leaf unleaf, (forall a, unleaf (leaf a) = Some a) ->
+  forall lt w d v, emb leaf lt w d = Some v -> unemb unleaf lt w v = Some d.
+Proof. exact emb_unemb. Qed.
+
+(** parsing the bytes written gives the value the chosen encoding can carry ... *)
+Theorem C13_parse_serialize_bytes : forall leaf unleaf, (forall a, unleaf (leaf a) = Some a) ->
+  forall p bs, serialize_bytes leaf p = Some bs -> parse_bytes unleaf bs = Ok (snd (serialize_parse p)).
+Proof. exact parse_serialize_bytes. Qed.
+
+(** ... which is the PCZT itself outside the explicitly described anchor class *)
+Theorem C13_pczt_roundtrip_bytes : forall leaf unleaf, (forall a, unleaf (leaf a) = Some a) ->
+  forall p bs, serialize_bytes leaf p = Some bs -> explicit_quirk p = false -> parse_bytes unleaf bs = Ok p.
+Proof. exact pczt_roundtrip_bytes. Qed.
+
+(** the bytes start with the magic, and carry version 1 exactly when the v1 conversion is defined *)
+Theorem C13_minimal_version_bytes : forall leaf p bs, serialize_bytes leaf p = Some bs ->
+  firstn 4 bs = MAGIC /\ (of_le32 (firstn 4 (skipn 4 bs)) = 1%N <-> via_v1 p <> None).
+Proof. exact minimal_version_bytes. Qed.
+
+(** ** Bridges for the encoding cases *)
+Theorem C13_ser_agree_implies_property : forall p o v1 v2,
+  anchor_quirk p = false -> run_case (CSer p o v1 v2) = true -> prop_case (CSer p o v1 v2) = true.
+Proof. exact ser_bridge. Qed.
+Theorem C13_bytes_agree_implies_property : forall ver v b,
+  run_case (CBytes ver v b) = true -> prop_case (CBytes ver v b) = true.
+Proof. exact bytes_bridge. Qed.
+Theorem C13_serb_agree_implies_property : forall p tbl b back v1ok,
+  run_case (CSerB p tbl b back v1ok) = true -> prop_case (CSerB p tbl b back v1ok) = true.
+Proof. exact serb_bridge. Qed.
+
+(** ** Copies of ANY shielded shapes (vector extension from Creator templates included) *)
+
+(** every field an input carried is in the result of the code's merge, except the derived
+    [value_sum] ([Kf]: the faithful kind, where [value_sum] is a one-sided field); no [same_len] *)
+Theorem C13_pczt_merge_keeps_any : forall n a b c,
+  shaped (Kf n) a = true -> shaped (Kf n) b = true -> M n a b = Some c ->
+  shaped (Kf n) c = true /\ le (Kf n) a c = true /\ le (Kf n) b c = true.
+Proof. exact gen_pczt_merge_keeps_any. Qed.
+
+(** ... and so for every nesting of Combiner calls over any well-shaped copies *)
+Theorem C13_eval_keeps_any : forall n P, Forall (fun q => shaped (Kf n) q = true) P -> forall e c,
+  eval (M n) P e = Some c ->
+  shaped (Kf n) c = true /\ Forall (fun i => (i < List.length P)%nat -> le (Kf n) (party P i) c = true) (leaves e).
+Proof. exact gen_eval_keeps_any. Qed.
+
+(** bridge without the one-shape guard: agreement with the model implies the clauses of the property
+    that do not need one common shape ([prop_combine_any]: no panic, idempotence, success iff
+    compatible for two copies of equal shape, every field kept except the derived [value_sum]) *)
+Theorem C13_combine_agree_implies_property_any : forall ps tbl rs,
+  wf_case (CCombine ps tbl rs) = true -> run_case (CCombine ps tbl rs) = true ->
+  prop_combine_any ps tbl rs = true.
+Proof. exact combine_bridge_any. Qed.
 
 (** ** Outside the domain: copies of different shielded shape *)
 
